@@ -79,6 +79,7 @@ class Hooks:
     def start(self, run): pass
     def reset(self, run): pass
     def accepted_invalid(self, run, o, m): pass
+    def refused_add_changed_schedule(self, run, accepted, n_before): pass
     def before(self, run): pass
     def after(self, run, o, m): pass
     def end(self, run): pass
@@ -126,6 +127,29 @@ def run_history(ctx, case, hooks: Hooks, instance=None):
                 if accepted:
                     ctx.count("refusable_requests_accepted")
                     hooks.accepted_invalid(run, o2, m2)
+                    return run
+        if explicit is None and rng.random() < 0.04 and run.r.history:
+            # an operation handed directly to Schedule.add with a start time before the end of the
+            # last operation on that machine is refused and must leave the schedule as it was
+            from job_shop_lib import ScheduledOperation
+            rr = run.r
+            m3 = rng.choice([mm for mm in range(rr.num_machines) if rr.machine_seq[mm]])
+            last = rr.machine_seq[m3][-1]
+            cand3 = [o3 for o3 in range(rr.num_ops) if m3 in rr.op_machines[o3]]
+            if rr.end[last] > 0 and cand3:
+                o3 = rng.choice(cand3)
+                n_before = run.d.schedule.num_scheduled_operations
+                ctx.count("refused_direct_adds_tried")
+                try:
+                    run.d.schedule.add(ScheduledOperation(run.ops[o3], rr.end[last] - 1, m3)
+                                       if rr.end[last] - 1 >= rr.start[last] and rr.op_dur[last] > 0
+                                       else ScheduledOperation(run.ops[o3], -1, m3))
+                    accepted = True
+                except Exception:
+                    accepted = False
+                if accepted or run.d.schedule.num_scheduled_operations != n_before \
+                        or run.d.schedule.is_complete() != (n_before == rr.num_ops):
+                    hooks.refused_add_changed_schedule(run, accepted, n_before)
                     return run
         if explicit is not None:
             o, m = explicit[k]
